@@ -425,7 +425,10 @@ def extract_fn(relpath, qual, ann):
         body = src[s0:e0]
         cnt = body.count(ob)
         every = rule.endswith(" all")
+        optional = rule.endswith(" opt")
         rule = rule.split()[0]
+        if cnt == 0 and optional:
+            continue
         if cnt < 1 or (cnt != 1 and not every):
             raise Inconclusive(f"anchor lost: rewrite {rule} snippet found {cnt} times in {qual}: {old.strip()[:60]!r}")
         pos = 0
